@@ -31,14 +31,14 @@ def bounds(tier):
                 "offset": "letters {b/2+7, b+1, b+5, b+6, 2b+1, 2b+8} for b in {1e5, 1e6, 2**24, 1e9}, 3..5 items, k=2..3: ckk/snp/rnp/dp (all objectives, both output families), cg x 3 objectives x {all switches on, all off}",
                 "spread (quick)": "5..6 items over fibonacci and powers of two, k=3..4",
                 "named": "values 0..5, 2..5 items, k=2..3, dict with integer names: all exact algorithms and all cg configurations",
-                "offset": "letters {b/2+7, b+1, b+5, b+6, 2b+1, 2b+8} for b in {1e5, 1e6, 2**24, 1e9}, 3..6 items, k=2..3: ckk/snp/rnp/dp (all objectives, both output families), cg x 3 objectives x {all switches on, all off}",
-            "named": "values 0..5, 2..5 items, k=2..3, dict with integer names: all exact algorithms and all cg configurations",
-            "big": "values {0, 1, 2**24+1, 2**31+1, 2**32+3, 2**40+5}, 2..5 items, k=2..4: ckk/snp/rnp/dp (all objectives); cg 48 configurations k=2..3"}
+                "big": "values {0, 1, 2**24+1, 2**31+1, 2**32+3, 2**40+5}, 2..5 items, k=2..4: ckk/snp/rnp/dp (all objectives); cg 48 configurations k=2..3"}
     return {"dense": "values 0..7, 1..8 items, 1..6 bins",
             "wide": "values 1..10 (7 items), fibonacci/near-equal/powers-of-two alphabets (6..8 items), k=2..5",
             "nine": "values 1..5, 9..10 items, k=4..5 for rnp/snp",
             "ilp": "values 0..5, 1..6 items, 1..4 bins + spread alphabet {7,19,53,101,199} 1..4 items",
             "long-thin": "9..24 items over {1,2}, 9..16 over {1,2,3}, 9..13 over {0,1,5} and {2,3,7}; k in {2,3,4,5,7}; cg x 3 objectives x {default, fast bound off}; ckk/rnp (n<=12, k<=4), snp (n<=12, k<=3); ilp at n in {9,12}, k<=3; optimum from the sum-vector DP",
+            "offset": "letters {b/2+7, b+1, b+5, b+6, 2b+1, 2b+8} for b in {1e5, 1e6, 2**24, 1e9}, 3..6 items, k=2..3: ckk/snp/rnp/dp (all objectives, both output families), cg x 3 objectives x {all switches on, all off}",
+            "named": "values 0..5, 2..5 items, k=2..3, dict with integer names: all exact algorithms and all cg configurations",
             "big": "values {0, 1, 2**24+1, 2**31+1, 2**32+3, 2**40+5}, 2..6 items, k=2..4: ckk/snp/rnp/dp (all objectives); cg 48 configurations k=2..3"}
 
 
